@@ -342,7 +342,65 @@ func (c *c10ctx) ruleR1() {
 			msg = fmt.Sprintf("exit at %s: WaitGroup.Add x%d, Done x%d, core loop started x%d: the run-done barrier is left unbalanced", p.InstrPos(adds[i].Instr), na, nd, ng)
 		}
 	}
-	r.Check(good, "C10.R1", FuncName(fn)+" run-done balance", p.Pos(fn.Pos()), "on every exit Add-Done equals the number of core loops started (which call Done when they end)", msg)
+	// clean-up done by a deferred closure (`defer func() { if err != nil { abort(); deactivate() } }()`):
+	// what it does on each exit depends on variables it captures; the per-exit counts above do not
+	// include it
+	var cleanupDefers []*ssa.Defer
+	Instrs(fn, func(in ssa.Instruction) {
+		d, ok := in.(*ssa.Defer)
+		if !ok {
+			return
+		}
+		mc, isMC := d.Call.Value.(*ssa.MakeClosure)
+		if !isMC {
+			return
+		}
+		cl, _ := mc.Fn.(*ssa.Function)
+		if cl == nil {
+			return
+		}
+		has := false
+		InstrsDeep(cl, 1, func(dd DeepInstr) {
+			x := dd.In
+			if CallOf(x) == nil {
+				return
+			}
+			if sets("Inactive")(x) || c.allImpls(x, func(f *ssa.Function) bool { return c.callsWG(f, "Done") }) || calleeNamed(x, "abortStart") {
+				has = true
+			}
+		})
+		if has {
+			cleanupDefers = append(cleanupDefers, d)
+		}
+	})
+	for _, d := range cleanupDefers {
+		// such a clean-up must be armed only once the source has entered Starting: armed earlier it
+		// also runs when the start was refused, on a source that is running
+		armedAfter := false
+		if fv, isV := first.(ssa.Value); isV {
+			if call, isCall := fv.(*ssa.Call); isCall {
+				armedAfter = nilEdgeDominates(call, d.Block())
+			}
+		}
+		if !armedAfter {
+			armedAfter = InstrDominates(first, d) && func() bool {
+				// the Starting call's failure returns before the defer
+				for _, ct := range controllingIfs(d.Block()) {
+					if bo, ok := ct.If.Cond.(*ssa.BinOp); ok && (resolveSpilled(bo.X, ct.If, 0) == first.(ssa.Value) || bo.X == first.(ssa.Value)) {
+						return true
+					}
+				}
+				return false
+			}()
+		}
+		r.Check(armedAfter, "C10.R1", FuncName(fn)+": the deferred clean-up is armed only after the source entered Starting", p.InstrPos(d), "the defer is on the success side of the Starting transition",
+			"the clean-up closure deferred here (it releases devices / deactivates when the function returns an error) is installed before the test of the Starting transition: a Start that is refused because the source is already running returns that error, the closure runs, and the running source has its devices closed and its state reset - it stays Active but delivers no more blocks")
+	}
+	if !good && len(cleanupDefers) > 0 {
+		r.Unk("C10.R1", FuncName(fn)+" run-done balance", p.Pos(fn.Pos()), "the exits are cleaned up by a deferred closure whose actions depend on captured variables ("+msg+" without it): the balance of the run-done barrier is not decided for this form")
+	} else {
+		r.Check(good, "C10.R1", FuncName(fn)+" run-done balance", p.Pos(fn.Pos()), "on every exit Add-Done equals the number of core loops started (which call Done when they end)", msg)
+	}
 	// the core loop must call Done exactly via its deferred deactivation: checked in R2
 	// go core dominated by the Active transition; and no error return after go
 	var act ssa.Instruction
